@@ -67,6 +67,19 @@ def run(tier):
     for line in open(tr3):
         ev = json.loads(line)
         kinds.add(('conc', ev['op'], ev['res'], ev['type'], ev['want'] == ''))
+    out.stage('E sessions with look-alike ids served through engines over one directory')
+    tr4 = os.path.join(d, 'sessids.ndjson')
+    core.run_harness(['sess-ids', os.path.join(core.SPEC, 'programs'), tr4], timeout=3000)
+    open(os.path.join(w, 'ks.cfg'), 'w').write(kv.trace_cfg(['C11_EngineSessionsApart']))
+    viol, st = core.validate_trace('KvTrace', 'ks.cfg', tr4, workdir=w)
+    out.cov['evaluations'] += st['events']
+    out.cov['traces_validated_against_impl'] += st['events']
+    for inv, idx, ev in viol:
+        out.violation('%s violated: session %r served after its look-alikes over one directory differs from the same session alone: alone=%s shared=%s' % (
+            inv, ev['sid'], json.dumps(ev['a'])[:300], json.dumps(ev['b'])[:300]), dict(property=PID, kind='sess-ids', invariant=inv, event=ev))
+    for line in open(tr4):
+        ev = json.loads(line)
+        kinds.add(('sessids', ev['prog'], len(ev['inputs'])))
     out.cov['distinct_nontrivial'] = len(kinds)
     out.cov['rule'] = ('all pairs of (type, session, key) with strings up to length 2 over an adversarial alphabet checked for storage-key collisions by TLC, each collision '
                        'replayed on mem / fs / fsbin / pg; random histories over separators, type-prefix characters, language-like suffixes, empty session, binary bytes, path elements')
@@ -82,6 +95,18 @@ def replay(path):
         core.run_harness(['kv-conc', tr, '8', '40', '6'], timeout=3000)
         w = core.spec_copy({'kc.cfg': kv.trace_cfg(['C11_ConcOwnData', 'C11_ConcWriteAccepted'])})
         viol, _ = core.validate_trace('KvTrace', 'kc.cfg', tr, workdir=w)
+        if viol:
+            log('VIOLATION property=%s replay=%s' % (PID, path))
+            log('  %s' % viol[0][0])
+            return 1
+        log('replay: property holds on the re-run')
+        return 0
+    if case.get('kind') == 'sess-ids':
+        d = core.scratch('verif-c11r-')
+        tr = os.path.join(d, 'sessids.ndjson')
+        core.run_harness(['sess-ids', os.path.join(core.SPEC, 'programs'), tr], timeout=3000)
+        w = core.spec_copy({'ks.cfg': kv.trace_cfg(['C11_EngineSessionsApart'])})
+        viol, _ = core.validate_trace('KvTrace', 'ks.cfg', tr, workdir=w)
         if viol:
             log('VIOLATION property=%s replay=%s' % (PID, path))
             log('  %s' % viol[0][0])
